@@ -234,7 +234,11 @@ class Worker:
                 ev.append({"a": "Outcome", "esc": esc, "n": min(n, 3)})
                 out["n"] = n
             else:
-                bo, be = io.StringIO(), io.StringIO()
+                # the streams a real process has: UTF-8, stdout strict (a lone surrogate cannot be written), stderr
+                # backslashreplace; write-through, so that what was written before a failure is seen
+                rawo, rawe = io.BytesIO(), io.BytesIO()
+                bo = io.TextIOWrapper(rawo, encoding="utf-8", errors="strict", newline="", write_through=True)
+                be = io.TextIOWrapper(rawe, encoding="utf-8", errors="backslashreplace", newline="", write_through=True)
                 sys.stdout, sys.stderr = bo, be
                 rc, esc = 9, None
                 try:
@@ -244,7 +248,12 @@ class Worker:
                 finally:
                     sys.stdout, sys.stderr = so, se
                 ev = rec.end()
-                o, e_ = bo.getvalue(), be.getvalue()
+                for w_ in (bo, be):
+                    try:
+                        w_.flush()
+                    except Exception:
+                        pass
+                o, e_ = rawo.getvalue().decode("utf-8", "replace"), rawe.getvalue().decode("utf-8", "replace")
                 ev.append(cli_out_event(o, e_, rc))
                 out.update(stdout_len=len(o), stderr=e_[-400:], rc=rc, cli_esc=esc)
         finally:
